@@ -20,10 +20,11 @@ def classify(v, src, fin, strict, obs):
 
 
 def run(ctx):
-    n = ctx.budget(120, 2500)
+    n = ctx.budget(60, 2500)
     srcs = FC.gen_sources(ctx, n, lambda i: Opts(sugar=(i % 3 == 0), max_bin=5 if ctx.tier == 'quick' else 6,
                                                   whole_rhs_cast=(i % 6 == 0)))
-    FC.run_functions(ctx, srcs, [(False, False), (True, False), (False, True), (True, True)], classify=classify)
+    FC.run_functions(ctx, srcs, [(False, False), (True, False), (False, True), (True, True)], classify=classify,
+                     strict_every=4 if ctx.tier == 'quick' else 0)
 
 
 def replay(ctx, payload):
